@@ -16,7 +16,8 @@ rule = ("scripts = 'p fmt <description> <sect flags> <opt flags>' then groups of
         "name, plus in every tier names and values of 65534..65537 bytes through mpt_parse_node into an empty and a "
         "filled target (one script each, closed by the allocation balance); stream 2b = formats WITHOUT assign "
         "character (7 descriptions) x option names of 1..300 bytes around the path buffer's allocation steps x empty / "
-        "short values (the recording handler reads every value and checks that it lies in the stored data); stream 3 = grammar-generated files mutated by delete/duplicate/flip x name flag sets x handler "
+        "short values (the recording handler reads every value and checks that it lies in the stored data); stream 2c = a section path of EVERY length 1..330 (thorough 1..1400, crossing the path buffer capacities 64, 192, 320, ...) "
+        "with an anonymous section / empty-named element / named section / option inside; stream 3 = grammar-generated files mutated by delete/duplicate/flip x name flag sets x handler "
         "refusals x pre-populated target trees x read errors; non-trivial = a script in which the real code "
         "delivered at least one element to the handler or built a node (event list / tree not empty), counted "
         "per distinct script")
@@ -149,6 +150,31 @@ def long_tokens(tier):
             for root in (".", "61(62=31),63=32"):
                 lines = [fmt_line(desc), "p root " + root, "p input " + hx(inp), "p node", "p end"]
                 out.append(("big:%d:%s:%d:%s" % (L, name, i, "e" if root == "." else "f"), lines))
+    return out
+
+
+def buffer_steps(tier):
+    """elements committed exactly when the path buffer is full (capacities 64, 192, 320, ...): the full path of
+    the open sections has every length 1..N; inside, an anonymous section / an element with empty name (no stored
+    delimiter: mpt_path_add has to grow the buffer itself), a named section and an option"""
+    out = []
+    top = 330 if tier == "quick" else 1400
+    inners = ["{\nx=1\n}\n", "{\n{\ny=2\n}\n}\n", "b {\nx=1\n}\n", "=1\nc=2\n", "\n{\n}\n"]
+    per = 8
+    for lo in range(1, top + 1, per):
+        lines = [fmt_line(None)]
+        for n in range(lo, min(top, lo + per - 1) + 1):
+            for k, inner in enumerate(inners):
+                if k and n % 64 not in (62, 63, 0, 1):
+                    continue
+                inp = "a" * n + "{\n" + inner + "}\n"
+                lines += ["p input " + hx(inp), "p config", "p root .", "p node"]
+            if n % 64 in (62, 63, 0):
+                # the same total length split over two levels of sections
+                inp = "s{\n" + "a" * (n - 2) + "{\n{\nx=1\n}\n}\n}\n" if n > 2 else "s{\n}\n"
+                lines += ["p input " + hx(inp), "p config", "p root .", "p node"]
+        lines.append("p end")
+        out.append(("steps:%d" % lo, lines))
     return out
 
 
@@ -324,6 +350,7 @@ def scripts(tier, seed, scale=1):
     out += exhaustive(tier)
     out += long_tokens(tier)
     out += noassign(tier)
+    out += buffer_steps(tier)
     out += grammar(tier, seed, scale)
     out += formats(tier, seed, scale)
     return out
